@@ -85,6 +85,7 @@ CONSTANTS
   Mutant = "none"
   Slack = %d
   PromptMin = 1000
+  LoopSlack = 600
 INVARIANT PrintEnd
 CHECK_DEADLOCK FALSE
 """ % (tla_set(ALL_BEHS + [SLOW]), TO_MS, SLACK_MS)
@@ -247,6 +248,61 @@ def many_scenario(sid, rng, tab, n, k):
             "hold_us": {}, "many": [n, k]}
 
 
+def loop_scenario(sid, tab, cmds, hold_ms=80):
+    """Two commands, one after the other, through the scheduler's own send function and MESSAGE event handler
+    (serial event loop). cmds: [(kind, {target: behaviour})] for c1, c2."""
+    tg, behv, msgs, hold, kind, steps = {}, {}, {}, {}, {}, []
+    for i, (knd, tb) in enumerate(cmds):
+        c = "c%d" % (i + 1)
+        kind[c] = knd
+        tg[c] = sorted(tb)
+        for t, b in tb.items():
+            behv[c + "/" + t] = b
+            msgs[c + "/" + t] = tab[(c, t, b)]
+            if b == "failreply":   # delivered and answered, but the call reports an error afterwards (lost HTTP response)
+                hold[c + "/" + t] = hold_ms * 1000
+        steps += [{"a": "Enqueue", "c": c}, {"a": "Deliver", "c": c}]
+    for c in ("c1", "c2"):
+        tg.setdefault(c, [])
+    return {"id": sid, "mode": "loop", "to_ms": TO_MANY_MS, "tg": tg, "qof": {"c1": "q1", "c2": "q1"}, "beh": behv, "msgs": msgs,
+            "gated": [], "steps": steps, "hold_us": hold, "kind": kind}
+
+
+LOOP_CASES = [
+    [("hook", {"t1": "failreply"}), ("hook", {"t1": "ok", "t2": "ok"})],
+    [("hook", {"t1": "failreply", "t2": "ok"}), ("trans", {"t1": "ok", "t2": "ok"})],
+    [("trans", {"t1": "failreply"}), ("hook", {"t2": "ok", "t3": "ok"})],
+    [("hook", {"t1": "sendfail", "t2": "err"}), ("trans", {"t1": "ok"})],
+    [("hook", {"t1": "ok", "t2": "silent"}), ("hook", {"t1": "ok"})],
+    [("trans", {"t1": "failreply", "t2": "failreply"}), ("trans", {"t1": "ok", "t2": "err", "t3": "ok"})],
+]
+
+
+def build_loop(ctx):
+    """cmdq with the loop family: needs core/task.VerifCommandLoop (work/patches/C12n-hooks.diff) in the tree under test."""
+    import shutil
+    import subprocess
+    out = os.path.join(ctx.work, "bin", "cmdq_loop")
+    os.makedirs(os.path.dirname(out), exist_ok=True)
+    e = dict(os.environ)
+    e.update(vlib.GOENV)
+    cmd = ["go", "build", "-tags", "verif c12loop", "-o", out, "./cmd/cmdq"]
+    if vlib.REPO != "/repo":
+        modfile = os.path.join(ctx.work, "go.loop.mod")
+        with open(os.path.join(vlib.HARNESS, "go.mod")) as fh:
+            txt = fh.read().replace("=> /repo\n", "=> %s\n" % vlib.REPO)
+        with open(modfile, "w") as fh:
+            fh.write(txt)
+        shutil.copy(os.path.join(vlib.HARNESS, "go.sum"), os.path.join(ctx.work, "go.loop.sum"))
+        cmd[2:2] = ["-modfile", modfile]
+    p = subprocess.run(cmd, cwd=vlib.HARNESS, env=e, stdout=subprocess.PIPE, stderr=subprocess.STDOUT, text=True)
+    if p.returncode == 0:
+        return out
+    if "VerifCommandLoop" in p.stdout:
+        return None
+    raise vlib.Inconclusive("harness build failed (cmdq, loop family): %s" % vlib.tail(p.stdout, 20))
+
+
 def vector_of(s):
     return json.dumps([s["tg"], s["qof"], s["beh"]], sort_keys=True)
 
@@ -374,6 +430,10 @@ def run(ctx):
     for (n, k) in many:
         sid += 1
         scenarios.append(many_scenario(sid, rng, tab, n, k))
+    # the scheduler's own path around the servent: replies fed by the serial MESSAGE event handler
+    for case in LOOP_CASES:
+        sid += 1
+        scenarios.append(loop_scenario(sid, tab, case))
     execute(ctx, scenarios)
 
 
@@ -389,7 +449,17 @@ def execute(ctx, scenarios):
     ctx.log("scenarios: %d scheduled (distinct), %d free" % (nsched, len(scenarios) - nsched))
 
     # ------------------------------------------------------------------ 3. replay on the real code
-    binp = ctx.build("cmdq")
+    binp = None
+    if any(s["mode"] == "loop" for s in scenarios):
+        binp = build_loop(ctx)
+        if binp is None:
+            scenarios = [s for s in scenarios if s["mode"] != "loop"]
+            ctx.observations.append("the loop family (replies fed through the scheduler's MESSAGE event handler, one after the other) was "
+                                    "SKIPPED: core/task.VerifCommandLoop (work/patches/C12n-hooks.diff, build tag verif) is not in the tree")
+    if not scenarios:
+        return
+    if binp is None:
+        binp = ctx.build("cmdq")
     scn_file = ctx.path("scenarios.ndjson")
     trace_file = ctx.path("trace.ndjson")
     ctx.write_ndjson(scn_file, scenarios)
